@@ -242,7 +242,7 @@ class MatrixDFTExecutor:
         if not isinstance(shift, Iterable):
             shift = (shift, shift)
 
-        return (Q, samples_in, samples_out, shift, fwd)
+        return (Q, samples_in, samples_out, shift, fwd, config.precision)
 
     def dft2(self, ary, Q, samples_out, shift=(0, 0)):
         """Compute the two dimensional Discrete Fourier Transform of a matrix.
@@ -362,7 +362,7 @@ class MatrixDFTExecutor:
         """Set up the basis matricies for given sampling parameters."""
         # broadcast sampling and shifts
 
-        Q, shp, samples, shift, fwd = key
+        Q, shp, samples, shift, fwd, _ = key  # last element: precision the bases are built in
 
         Qn, Qm = Q
         # conversion here to Soummer's notation
